@@ -559,6 +559,21 @@ func (s *UtxoStore) deleteUnminedInputs(tx mwdb.DBTransaction, rec *TxRecord) er
 	return nil
 }
 
+// deleteUnminedInputsOf removes rec from the unmined spenders of every output
+// it spends. Other unmined transactions spending the same output keep it
+// flagged.
+func (s *UtxoStore) deleteUnminedInputsOf(tx mwdb.DBTransaction, rec *TxRecord) error {
+	nsUnminedInputs := tx.FetchBucket(s.bucketMeta.nsUnminedInputs)
+	for _, input := range rec.MsgTx.TxIn {
+		prevOut := &input.PreviousOutPoint
+		k := canonicalOutPoint(&prevOut.Hash, prevOut.Index)
+		if err := deleteRawUnminedInputSpender(nsUnminedInputs, k, rec.Hash[:]); err != nil {
+			return err
+		}
+	}
+	return nil
+}
+
 func (s *UtxoStore) UpdateMinedBalances(tx mwdb.DBTransaction, balances map[string]massutil.Amount) error {
 	nsMinedBalance := tx.FetchBucket(s.bucketMeta.nsMinedBalance)
 	for walletId, amt := range balances {
